@@ -1,6 +1,7 @@
 CONSTANTS
   V = {"stopfwd"}
   MaxN = 3
+  Vary = FALSE
 SPECIFICATION Spec
 INVARIANTS TypeOK ReverseOrder
 CHECK_DEADLOCK FALSE
